@@ -42,7 +42,7 @@ W = 15
 ACCTS[:] = [("Cold_Wallet", "Bob"), ("Kraken Pro", "Bob"), ("Cold", "Wallet_Bob"), ("Cold_Wallet", "Alice"), ("Kraken Pro", "Alice")]      # one name with a blank inside
 EXS = sorted({a[0] for a in ACCTS})
 HOS = sorted({a[1] for a in ACCTS}, reverse=True)
-ALL_ASSETS = ["B1", "B.2", "B3"]      # real tickers contain dots and hyphens (USDC.e, BRK-B): one asset name has a dot
+ALL_ASSETS = ["B1", "B.2", "UniswapV2-WETH-USDC-LP-token"]      # real tickers contain dots and hyphens (USDC.e, BRK-B): one asset name has a dot; one is long (28 characters: sheet names '<asset> In-Out', '<asset>_<year>' get longer than 31)
 
 
 def country_facts(entry):
@@ -178,6 +178,21 @@ def env_switches():
 _CRAFT = {"k": 0}
 
 
+def renumber(rows, torder, cfee_a):
+    """number the rows as they will lie in the sheet (tables in the order `torder`; a row whose id is 0 is new and goes last in its table);
+    returns the crypto-fee map re-keyed by the new ids"""
+    rid = 3
+    old2new = {}
+    for tbl in torder:
+        for x in [r for r in rows if r[0] == tbl and r[1] != 0] + [r for r in rows if r[0] == tbl and r[1] == 0]:
+            if x[1] != 0:
+                old2new[x[1]] = rid
+            x[1] = rid
+            rid += 1
+        rid += 3
+    return {str(old2new[int(k)]): v for k, v in cfee_a.items() if int(k) in old2new}
+
+
 def gen(rng, prop=None):
     _CRAFT["k"] += 1
     if prop == "C16" and _CRAFT["k"] == 3:
@@ -186,6 +201,51 @@ def gen(rng, prop=None):
         entry = rng.choice(["us", "ie"])
         return {"entry": entry, "method": None, "lang": None, "from": None, "to": None, "neg": False, "only": None, "sched": None,
                 "assets": {a: R.capacity_rows(rng, n + j) for j, a in enumerate(ALL_ASSETS)}, "cfee": {a: {} for a in ALL_ASSETS}, "fault": None, "prefix": ""}
+    if prop == "C16" and _CRAFT["k"] == 5:
+        f, m, l = rng.randint(50, 58), rng.randint(36, 42), rng.randint(0, 6)
+        return {"entry": rng.choice(["us", "ie"]), "method": None, "lang": None, "from": None, "to": None, "neg": False, "only": None, "sched": None,
+                "assets": {"B1": R.expense_rows(rng, f, m, l), "B.2": R.capacity_rows(rng, 5)}, "cfee": {"B1": {}, "B.2": {}}, "fault": None, "prefix": "",
+                "table_order": ["IN", "OUT", "INTRA"]}
+    if prop in ("C16", "C20") and _CRAFT["k"] == (7 if prop == "C16" else 2):
+        # a year in which an asset is only moved between own accounts without a fee (nothing to report for that year), between a year with a
+        # purchase and a year with a sale; alone in the run, or after an asset that has nothing in that year either
+        t0 = datetime(2020, 5, 4, 9, tzinfo=timezone.utc)
+        rows = [["IN", 3, P.us(t0), 0, "BUY", 0, P.rprice(rng), 5 * U, None, None, None],
+                ["OUT", 7, P.us(t0 + timedelta(days=800)), 0, "SELL", 1, P.rprice(rng), 2 * U, 0, None, None, None],
+                ["INTRA", 11, P.us(t0 + timedelta(days=400)), 0, 0, 1, None if rng.random() < 0.5 else P.rprice(rng), 3 * U, 3 * U]]
+        assets_ = {"B1": rows}
+        if rng.random() < 0.5:
+            assets_ = {"B.2": [["IN", 3, P.us(t0 + timedelta(days=5)), 0, "BUY", 0, P.rprice(rng), 5 * U, None, None, None]], "B1": rows}
+        return {"entry": "jp", "method": None, "lang": rng.choice([None, "en"]), "from": None, "to": None, "neg": False, "only": None, "sched": None,
+                "assets": assets_, "cfee": {a: {} for a in assets_}, "fault": None, "prefix": "", "table_order": ["IN", "OUT", "INTRA"]}
+    if prop == "C18" and _CRAFT["k"] == 2:
+        # a large portfolio: nine assets with a couple of rows each (whatever the run does for many assets, it does it in this process)
+        names = ["A%d" % k for k in range(1, 10)]
+        assets_ = {}
+        for k, a in enumerate(names):
+            t0 = datetime(2020, 3, 1 + k, 10, tzinfo=timezone.utc)
+            assets_[a] = [["IN", 3, P.us(t0), 0, "BUY", 0, P.rprice(rng), 5 * U, None, None, None],
+                          ["OUT", 7, P.us(t0 + timedelta(days=40)), 0, "SELL", 0, P.rprice(rng), 2 * U, 0, None, None, None]]
+        return {"entry": rng.choice(["us", "jp", "es", "ie"]), "method": None, "lang": None, "from": None, "to": None, "neg": False, "only": None, "sched": None,
+                "assets": assets_, "cfee": {a: {} for a in names}, "fault": None, "prefix": "", "table_order": ["IN", "OUT", "INTRA"]}
+    if prop == "C10" and _CRAFT["k"] == 4:
+        # a long history (more than 64 rows in each table) in which nine acquisitions and nine sales share one calendar day around the
+        # 64th position, and a window that starts on that day: every row of the day is in the window
+        t0 = datetime(2020, 1, 1, 9, tzinfo=timezone.utc)
+        day = lambda i: i if i < 60 else (60 if i < 69 else i - 8)
+        rows = []
+        for i in range(rng.randint(72, 80)):
+            rows.append(["IN", 0, P.us(t0 + timedelta(days=day(i), minutes=i)), 0, "BUY", 0, P.rprice(rng), 3 * U, None, None, None])
+            rows.append(["OUT", 0, P.us(t0 + timedelta(days=day(i), hours=5, minutes=i)), 0, "SELL", 0, P.rprice(rng), U, 0, None, None, None])
+        rid = 3
+        for tbl in ("IN", "OUT", "INTRA"):
+            for x in rows:
+                if x[0] == tbl:
+                    x[1] = rid
+                    rid += 1
+            rid += 3
+        return {"entry": "us", "method": rng.choice([None, "lifo", "hifo"]), "lang": None, "from": (t0 + timedelta(days=60)).date().isoformat(), "to": None, "neg": False,
+                "only": None, "sched": None, "assets": {"B1": rows}, "cfee": {"B1": {}}, "fault": None, "prefix": "", "table_order": ["IN", "OUT", "INTRA"]}
     entry = rng.choice(["us", "us", "jp", "es", "ie", "generic"]) if prop != "C20" else "jp"
     if prop == "C01":
         entry = rng.choice([e for e in ("us", "us", "es", "generic") if len(country_facts(e)["methods"]) > 1] or ["us"])
@@ -309,6 +369,26 @@ def gen(rng, prop=None):
             fd = rng.choice(late) if late else fd
             if td and fd > td:
                 td = None
+    if prop == "C09":
+        fd = None
+        ys_ = sorted({d.year for d in days})
+        if rng.random() < 0.85:
+            td = rng.choice(cand)
+        if len(facts["methods"]) > 1 and len(ys_) >= 2 and rng.random() < 0.7:
+            # a schedule that changes to the opposite method in a later year, and a to-date on or right around the first day of that year
+            y2 = rng.choice(ys_[1:])
+            opp = [p_ for p_ in (("fifo", "lifo"), ("lifo", "fifo"), ("hifo", "lofo"), ("lofo", "hifo")) if p_[0] in facts["methods"] and p_[1] in facts["methods"]]
+            a_, b_ = rng.choice(opp) if opp else rng.sample(facts["methods"], 2)
+            sched = {"1970": a_, str(y2): b_}
+            method = None
+            td = rng.choice([date(y2, 1, 1), date(y2, 1, 1), date(y2, 1, 2), date(y2 - 1, 12, 31), rng.choice([d for d in cand if d.year >= y2] or [date(y2, 6, 30)])])
+            # a disposal on that first day makes the choice of the method visible
+            a0 = rng.choice(list(assets))
+            rws = assets[a0]
+            ins_ = [r for r in rws if r[0] == "IN" and ldate(r[2], r[3]) < date(y2, 1, 1)]
+            if len(ins_) >= 1 and rng.random() < 0.8:
+                rws.append(["OUT", 0, P.us(datetime(y2, 1, 1, 12, tzinfo=timezone.utc)), 0, "SELL", ins_[0][5], P.rprice(rng), 1, 0, None, None, None])
+                cfee[a0] = renumber(rws, torder, cfee.get(a0, {}))
     if prop == "C01":
         fd = td = None
         if len(facts["methods"]) > 1 and rng.random() < 0.85:
@@ -964,11 +1044,13 @@ def oracle_c18(case, res, guard=True):
 
 def oracle_c19(case, res, guard=True):
     """links in the real full report, followed through the parser's fee split: a lot cell must lead to the In-Flow row of that lot"""
-    if res["exit"] != 0 or "_full" not in res:
+    if res["exit"] != 0:
         return None
     for r in res["rows"]:
         if r[0] == "DANGLING" and r[1].endswith("rp2_full_report.ods"):
             return f"{r[1]}: a link or formula refers to sheet {r[2]!r}, which the file does not have"
+    if "_full" not in res:
+        return None
     kind = {}
     for a in res["_a2c"]:
         for r in with_cfee(case, a):
@@ -1175,7 +1257,7 @@ def oracle_c17(case, res, guard=True):
         if r2["exit"] != 0:
             return f"processing asset {a} alone fails (exit {r2['exit']}) while the run over all assets succeeds"
         # artificial (negative) transaction ids come from a counter shared by all assets of a run: internal, not shown in any report
-        norm = lambda r: [("art" if (k in (3, 4) and isinstance(x, int) and x < 0) else x) for k, x in enumerate(r)]
+        norm = lambda r: [("art" if (k in (3, 4) and isinstance(x, int) and x < 0) else "pos" if (r[0] == "SU" and k == 1) else x) for k, x in enumerate(r)]
         mine = sorted(json.dumps(norm(r), default=str) for r in res["rows"] if asset_row(r, a))
         alone = sorted(json.dumps(norm(r), default=str) for r in r2["rows"] if asset_row(r, a))
         if mine != alone:
@@ -1187,8 +1269,9 @@ def oracle_c17(case, res, guard=True):
 
 
 def asset_row(r, a):
-    """rows whose content must not depend on the other assets (row numbers on shared sheets do, and are excluded)"""
-    return r[0] in ("IOIN", "IOOUT", "IOX", "TY", "TB", "TT", "TP", "TD") and r[1] == a
+    """rows whose content must not depend on the other assets (row numbers on shared sheets do, and are excluded); the asset's lines of the
+    shared Summary sheet count too — whether a cell is a link, and to which row of the asset's own Tax sheet — without their position"""
+    return (r[0] in ("IOIN", "IOOUT", "IOX", "TY", "TB", "TT", "TP", "TD") and r[1] == a) or (r[0] == "SU" and r[2] == a)
 
 
 def first_diff(a, b):
@@ -1272,6 +1355,88 @@ def oracle_c01(case, res, guard=True):
                     return (f"{a} Tax row {row}: the disposal {ei} of {e.timestamp.year} ({m} is in force: schedule {dict(sorted(sched.items()))}) took lot {li} "
                             f"while lot {j} with balance {rem[j]}e-11 ranks before it")
             rem[li] -= amt
+    return None
+
+
+def oracle_c03(case, res, guard=True):
+    """end to end, from the sheet to the report: the taxable events of the Gain / Loss Detail table are exactly the earn-typed IN rows, the
+    OUT rows (with one fee-only disposal for every acquisition that paid its fee in crypto, whatever its type) and the transfers with a
+    fee — each for its full amount, income rows without a lot. Rows are identified by (table, instant), not by row number."""
+    if case.get("fault") is not None or res["exit"] != 0 or "_full" not in res or case["from"] or case["to"]:
+        return None
+    for a, cd in res["_a2c"].items():
+        rows = effective_rows(with_cfee(case, a))
+        if guard and not P.fee_fiat_visible({"rows": rows}):
+            continue            # finding F12: a transfer fee worth less than 5e-14 fiat is not taxed
+        want = {}
+        for r in rows:
+            if not P.taxable(r):
+                continue
+            amt = r[7] if r[0] == "IN" else (r[9] if r[9] is not None else r[7] + r[8]) if r[0] == "OUT" else r[7] - r[8]
+            k = (r[0], r[2], "fee-only" if r[1] < 0 else "row")
+            want[k] = want.get(k, 0) + amt
+        when = {}
+        for kind, st in (("IN", cd.in_transaction_set), ("OUT", cd.out_transaction_set), ("INTRA", cd.intra_transaction_set)):
+            for t in st:
+                when[(kind, int(t.internal_id))] = _us(t.timestamp)
+        got = {}
+        for (ek, ei, li, amt, _p, _c, _g, row, haslot) in file_fractions(res, a):
+            if ei is None or (ek, ei) not in when:
+                return f"{a} Tax row {row}: the taxable event of the fraction is not linked to a row of the In-Out sheet"
+            k = (ek, when[(ek, ei)], "fee-only" if ei < 0 else "row")
+            got[k] = got.get(k, 0) + amt
+            if (ek == "IN") == haslot:
+                return f"{a} Tax row {row}: {'an income row has a lot' if ek == 'IN' else 'a disposal has no lot'}"
+        if got != want:
+            x = sorted(k for k in got if got[k] != want.get(k))[:3]
+            y = sorted(k for k in want if want[k] != got.get(k))[:3]
+            return (f"{a}: taxed (table, instant µs, kind -> amount e-11) {[(k, got[k]) for k in x]} vs taxable transactions of the sheet {[(k, want[k]) for k in y]}")
+    return None
+
+
+def oracle_c09(case, res, guard=True):
+    """a run limited by a to-date reports the same fractions as a run on the sheet truncated at that date (end to end, with the method
+    schedule of the configuration file)"""
+    if case.get("fault") is not None or res["exit"] != 0 or "_full" not in res or not case["to"] or case["from"] or case.get("only"):
+        return None
+    if guard and not all(P.local_dates_monotone({"rows": effective_rows(with_cfee(case, a))}) for a in case["assets"]):
+        return None             # finding F6
+    td = date.fromisoformat(case["to"])
+    keep = {a: [r for r in rows if ldate(r[2], r[3]) <= td] for a, rows in case["assets"].items()}
+    if any(not any(r[0] == "IN" for r in rows) for rows in keep.values()):
+        return None             # a sheet without acquisitions is not a valid input
+    # rows keep their numbers only if no row before them is dropped: compare by content instead (timestamps identify rows)
+    new_assets, new_cfee = {}, {}
+    torder = case.get("table_order") or ["IN", "OUT", "INTRA"]
+    for a, rows in keep.items():
+        new = [list(r) for r in rows]
+        rid = 3
+        old2new = {}
+        for tbl in torder:
+            for x in new:
+                if x[0] == tbl:
+                    old2new[x[1]] = rid
+                    x[1] = rid
+                    rid += 1
+            rid += 3
+        new_assets[a] = new
+        new_cfee[a] = {str(old2new[int(k)]): v_ for k, v_ in case["cfee"].get(a, {}).items() if int(k) in old2new}
+    r2 = run_impl(dict(case, assets=new_assets, cfee=new_cfee, to=None, variant=None, fresh=False))
+    if r2["exit"] != 0 or "_full" not in r2:
+        return f"the history truncated at {case['to']} does not compute (exit {r2['exit']}) while the run limited by that to-date does"
+    for a in res["_a2c"]:
+        if a not in r2["_a2c"]:
+            continue
+        def frs(r_, cd):
+            when = {}
+            for kind, st in (("IN", cd.in_transaction_set), ("OUT", cd.out_transaction_set), ("INTRA", cd.intra_transaction_set)):
+                for t in st:
+                    when[(kind, int(t.internal_id))] = str(t.timestamp)
+            return sorted((f[0], when.get((f[0], f[1])), when.get(("IN", f[2])), f[3], f[4], f[5], f[6]) for f in file_fractions(r_, a))
+        x, y = frs(res, res["_a2c"][a]), frs(r2, r2["_a2c"][a])
+        if x != y:
+            return (f"{a}: fractions of the run limited by the to-date {case['to']} differ from the run on the sheet truncated at that date (event table, event time, lot time, "
+                    f"amount, proceeds, cost basis, gain): {[f for f in x if f not in y][:1]} vs {[f for f in y if f not in x][:1]}")
     return None
 
 
@@ -1400,7 +1565,7 @@ def oracle_c20(case, res, guard=True):
     return R.oracle_c20(rc, {"status": "ok", "rows": [r for r in res["rows"] if r[0] in ("JS", "JR")]}, guard)
 
 
-ORACLES = {"C01": oracle_c01, "C05": oracle_c05, "C10": oracle_c10, "C20": oracle_c20, "C02": oracle_c02, "C15": oracle_c15, "C12": oracle_c12, "C13": oracle_c13, "C16": oracle_c16, "C17": oracle_c17, "C18": oracle_c18, "C19": oracle_c19}
+ORACLES = {"C01": oracle_c01, "C03": oracle_c03, "C09": oracle_c09, "C05": oracle_c05, "C10": oracle_c10, "C20": oracle_c20, "C02": oracle_c02, "C15": oracle_c15, "C12": oracle_c12, "C13": oracle_c13, "C16": oracle_c16, "C17": oracle_c17, "C18": oracle_c18, "C19": oracle_c19}
 
 
 def shrink_candidates(case):
@@ -1409,9 +1574,14 @@ def shrink_candidates(case):
             yield dict(case, assets={k: v for k, v in case["assets"].items() if k != a})
     for a in list(case["assets"]):
         for k in range(len(case["assets"][a])):
-            rows = case["assets"][a][:k] + case["assets"][a][k + 1:]
+            rows = [list(r) for r in case["assets"][a][:k] + case["assets"][a][k + 1:]]
             if any(r[0] == "IN" for r in rows):
-                yield dict(case, assets=dict(case["assets"], **{a: rows}))
+                # rows are numbered as they lie in the sheet: renumber after the deletion (and re-key the crypto-fee map)
+                cf = renumber(rows, case.get("table_order") or ["IN", "OUT", "INTRA"], case["cfee"].get(a, {}))
+                c2 = dict(case, assets=dict(case["assets"], **{a: rows}), cfee=dict(case["cfee"], **{a: cf}))
+                if case.get("fault") == "bad-cell" and case["badcell"][0] == a:
+                    continue        # the faulty row is addressed by its number: keep that sheet as it is
+                yield c2
     for key in ("from", "to", "lang", "method", "sched"):
         if case[key]:
             yield dict(case, **{key: None})
